@@ -290,7 +290,7 @@ def layout_flow(F, E, cls, dirty, ins, outs, on_write=None):
             elif fld in ins:
                 # copied together with the cache in the copy operations: coherent snapshot
                 rhs = strip_copy(node.get("init"))
-                if not (isinstance(rhs, dict) and rhs.get("k") == "mem" and rhs["field"] == fld):
+                if not (isinstance(rhs, dict) and rhs.get("k") == "mem" and rhs["field"] == fld and ctx.f.get("copyctor")):
                     stale, ow = True, frozenset()
             elif fld in outs:
                 ow = ow | {fld}
@@ -313,8 +313,10 @@ def layout_flow(F, E, cls, dirty, ins, outs, on_write=None):
                         d = True
                 elif fld in ins:
                     rhs = strip_copy(write_rhs(node))
-                    if isinstance(rhs, dict) and rhs.get("k") == "mem" and rhs["field"] == fld and not is_this_mem(rhs):
-                        pass  # member-wise copy from another optimizer (cache copied alongside)
+                    from_other = any(n_.get("k") == "mem" and n_["field"] == fld and not is_this_mem(n_) and n_["base"].get("k") == "var" and n_["base"].get("vk") == "param"
+                                     for n_ in walk(write_rhs(node)))
+                    if from_other and (ctx.f.get("copyctor") or ctx.f.get("kind") == "copyassign"):
+                        pass  # member-wise (or re-bound) copy from another optimizer: the cache is copied alongside
                     else:
                         stale, ow = True, frozenset()
                 elif fld in outs:
